@@ -30,3 +30,32 @@ CASES = [
     Case("fingerprint-via-hex-string-checker", "keep", [(C_, "    bytes.fromhex(gpg_fingerprint)\n    if not gpg_fingerprint.isalnum() or gpg_fingerprint.lower() != gpg_fingerprint:\n        raise ValueError('Expected a hex string; non-hexadecimal or upper-case character found.')\n", "    checkformat_hex_string(gpg_fingerprint)\n")]),
 ]
 MIN_APPLIED = 20
+
+# ---- validators written differently: decided on the language of the string tests (sa/strlang.py)
+_HS_BODY = "    bytes.fromhex(hex_string)\n    if not hex_string.isalnum() or hex_string.lower() != hex_string:\n        raise ValueError('Expected a hex string; non-hexadecimal or upper-case character found.')\n"
+_TYPE_GATE = "    if not isinstance(hex_string, str):\n        raise TypeError('Expected a string.')\n"
+_IMPORT_RE = ("from binascii import", "import re\nfrom binascii import")
+
+
+def _hs(new_body, with_re=False):
+    edits = [(C_, _HS_BODY, new_body)]
+    if with_re:
+        edits.append((C_,) + _IMPORT_RE)
+    return edits
+
+
+CASES += [
+    Case("predicate-handler-narrowed", "break", [(C_, "def is_hex_string(hex_string: Any) -> bool:", "def is_hex_string(hex_string: Any) -> bool:\n    pass"), (C_, "        checkformat_hex_string(hex_string)\n        return True\n    except (ValueError, TypeError):", "        checkformat_hex_string(hex_string)\n        return True\n    except ValueError:")], "pair|hex_string"),
+    Case("hex-by-regex-fullmatch", "keep", _hs(_TYPE_GATE + "    if re.fullmatch('(?:[0-9a-f]{2})+', hex_string) is None:\n        raise ValueError('Expected a hex string.')\n", True)),
+    Case("hex-by-regex-match-Z", "keep", _hs(_TYPE_GATE + "    if not re.match('^([0-9a-f][0-9a-f])+\\\\Z', hex_string):\n        raise ValueError('Expected a hex string.')\n", True)),
+    Case("hex-by-charset-all", "keep", _hs(_TYPE_GATE + "    if not hex_string or len(hex_string) % 2 or not all((c in '0123456789abcdef' for c in hex_string)):\n        raise ValueError('Expected a hex string.')\n")),
+    Case("hex-by-charset-any", "keep", _hs(_TYPE_GATE + "    if not hex_string or len(hex_string) % 2 != 0 or any((c not in '0123456789abcdef' for c in hex_string)):\n        raise ValueError('Expected a hex string.')\n")),
+    Case("hex-by-issuperset", "keep", _hs(_TYPE_GATE + "    if len(hex_string) == 0 or len(hex_string) % 2 or (not frozenset('0123456789abcdef').issuperset(hex_string)):\n        raise ValueError('Expected a hex string.')\n")),
+    Case("hex-by-char-loop", "keep", _hs(_TYPE_GATE + "    if len(hex_string) < 2 or len(hex_string) % 2 == 1:\n        raise ValueError('Expected a hex string.')\n    for ch in hex_string:\n        if not ('0' <= ch <= '9' or 'a' <= ch <= 'f'):\n            raise ValueError('Expected a hex string.')\n")),
+    Case("hex-by-round-trip", "keep", _hs("    raw = bytes.fromhex(hex_string)\n    if not raw or raw.hex() != hex_string:\n        raise ValueError('Expected a hex string.')\n")),
+    Case("hex-regex-dollar-newline", "break", _hs(_TYPE_GATE + "    if not re.match('^([0-9a-f][0-9a-f])+$', hex_string):\n        raise ValueError('Expected a hex string.')\n", True), "accept|common.checkformat_hex_string"),
+    Case("hex-regex-unicode-digits", "break", _hs(_TYPE_GATE + "    if re.fullmatch('(?:[\\\\da-f]{2})+', hex_string) is None:\n        raise ValueError('Expected a hex string.')\n", True), "accept|common.checkformat_hex_string"),
+    Case("hex-regex-upper-case", "break", _hs(_TYPE_GATE + "    if not re.fullmatch('([0-9a-fA-F]{2})+', hex_string):\n        raise ValueError('Expected a hex string.')\n", True), "accept|common.checkformat_hex_string"),
+    Case("hex-charset-odd-length", "break", _hs(_TYPE_GATE + "    if not hex_string or any((c not in '0123456789abcdef' for c in hex_string)):\n        raise ValueError('Expected a hex string.')\n"), "accept|common.checkformat_hex_string"),
+    Case("hex-issuperset-without-str-gate", "break", _hs("    if len(hex_string) == 0 or len(hex_string) % 2 or (not frozenset('0123456789abcdef').issuperset(hex_string)):\n        raise ValueError('Expected a hex string.')\n"), "accept|common.checkformat_hex_string"),
+]
